@@ -398,6 +398,33 @@ struct RLine {
     depth: i64,
     pen: Option<i64>,
     glue_before: Option<i64>,
+    /// glue order and ratio of the box
+    set: (i64, i64, i64),
+    /// natural width, total stretch per order, total shrink per order (filled in where a font repo is at hand)
+    sums: Option<(i64, [i64; 4], [i64; 4])>,
+}
+
+/// Natural width and glue totals of a line, as `HBox::pack` sees its nodes.
+fn line_sums<F: boxworks::FontRepo>(repo: &F, list: &[ds::Horizontal]) -> (i64, [i64; 4], [i64; 4]) {
+    use ds::Horizontal::*;
+    let (mut nat, mut st, mut sh) = (0i64, [0i64; 4], [0i64; 4]);
+    for h in list {
+        match h {
+            Char(c) => nat += repo.width(c.char, c.font).map(|w| w.0 as i64).unwrap_or(0),
+            Ligature(l) => nat += repo.width(l.char, l.font).map(|w| w.0 as i64).unwrap_or(0),
+            HBox(b) => nat += b.width.0 as i64,
+            VBox(b) => nat += b.width.0 as i64,
+            Rule(r) => nat += r.width.0 as i64,
+            Kern(k) => nat += k.width.0 as i64,
+            Glue(g) => {
+                nat += g.value.width.0 as i64;
+                st[g.value.stretch_order as usize] += g.value.stretch.0 as i64;
+                sh[g.value.shrink_order as usize] += g.value.shrink.0 as i64;
+            }
+            _ => {}
+        }
+    }
+    (nat, st, sh)
 }
 
 struct RealBreak {
@@ -430,6 +457,8 @@ fn decode_vlist(v: &[ds::Vertical]) -> (Vec<RLine>, Option<String>) {
                     depth: b.depth.0 as i64,
                     pen: None,
                     glue_before: pending_glue.take(),
+                    set: (b.glue_order as i64, b.glue_ratio.num.0 as i64, b.glue_ratio.den.0 as i64),
+                    sums: None,
                 });
             }
             ds::Vertical::Penalty(p) => match lines.last_mut() {
@@ -484,9 +513,12 @@ fn run_break<F: boxworks::FontRepo>(
             if v.len() < vinit.len() || v[..vinit.len()] != vinit[..] {
                 shape_error = Some("break_line changed the vertical material before the paragraph".to_string());
             }
-            let (lines, e) = decode_vlist(&v[vinit.len().min(v.len())..]);
+            let (mut lines, e) = decode_vlist(&v[vinit.len().min(v.len())..]);
             if e.is_some() {
                 shape_error = e;
+            }
+            for ln in lines.iter_mut() {
+                ln.sums = Some(line_sums(repo, &ln.list));
             }
             Ok(lines)
         }
@@ -643,6 +675,26 @@ fn check_break(out: &mut CaseOutcome, drv: &mut Driver, c: &Common, orig: &[ds::
                 }
                 None => out.fail(Kind::ImplVsModel, "lines", format!("model says {model}, real returns lines"), format!("real: {real_s}")),
             }
+            // --- every line is SET to its width (Lean `lineSetVerdict` on the totals of the real line) ---
+            for (k, ln) in lines.iter().enumerate() {
+                if let Some((nat, st, sh)) = ln.sums {
+                    let v = drv.ask(&format!("lsw {nat} {} {} {} {} {} {}", ln.width, join(&st), join(&sh), ln.set.0, ln.set.1, ln.set.2));
+                    let x = ln.width - nat;
+                    if x < 0 {
+                        let inf = sh[1] != 0 || sh[2] != 0 || sh[3] != 0;
+                        out.tag(if inf { "set:shrinks, infinite shrink" } else if sh[0] < -x { "set:overfull" } else { "set:shrinks, finite" });
+                        if inf && (sh[1] + sh[2] + sh[3]).abs() < -x {
+                            out.tag("set:infinite shrink smaller than the overflow");
+                        }
+                    } else if x > 0 {
+                        out.tag(if st.iter().all(|t| *t == 0) { "set:underfull" } else { "set:stretches" });
+                    }
+                    if v != "ok" && dom {
+                        out.fail(Kind::ImplVsSpec, "set", format!("a line is not set to its width: {v}"), format!("line {k}: natural {nat}, width {}, stretch {st:?}, shrink {sh:?}, box order {} ratio {}/{}", ln.width, ln.set.0, ln.set.1, ln.set.2));
+                        break;
+                    }
+                }
+            }
             // --- interline glue: M (`interline`) and S (TeX §679, \baselineskip=12pt, \lineskiplimit=0pt) ---
             let mut req = format!("bsk {} {}", join(&vinit_nodes(c.vinit)), lines.len());
             let mut real_b = vec![];
@@ -784,7 +836,7 @@ fn gen_glue(rng: &mut Rng, u: i64) -> [i64; 5] {
     if rng.chance(2, 3) {
         [0; 5]
     } else {
-        [u * *rng.pick(&[0, 1, 3, -1]), u * *rng.pick(&[0, 2, 5]), *rng.pick(&[0, 0, 0, 1, 2]), u * *rng.pick(&[0, 1]), *rng.pick(&[0, 0, 0, 1])]
+        [u * *rng.pick(&[0, 1, 3, -1]), u * *rng.pick(&[0, 2, 5]), *rng.pick(&[0, 0, 0, 1, 2]), u * *rng.pick(&[0, 1, 1, 3]), *rng.pick(&[0, 0, 1, 1, 2, 3])]
     }
 }
 
@@ -944,6 +996,7 @@ fn gen_list(rng: &mut Rng, u: i64, max_items: usize, exotic: bool) -> Vec<It> {
                 items.push(sp(rng));
                 items.push(It::Kern(*rng.pick(&[0, 2, 3]), u * *rng.pick(&[1, -1, 2])));
             }
+            9 => items.push(It::Glue(0, [u * *rng.pick(&[3, 5]), u * *rng.pick(&[0, 2]), 0, u * *rng.pick(&[1, 2]), *rng.pick(&[1, 1, 2, 3])])), // \hss-like
             7 => items.push(It::Glue(*rng.pick(&[0, 0, 2, 3]), [u * 4, u * *rng.pick(&[0, 1, 10]), *rng.pick(&[0, 0, 1, 2, 3]), u * *rng.pick(&[0, 2]), *rng.pick(&[0, 0, 1])])),
             _ => items.push(sp(rng)),
         }
@@ -1895,7 +1948,8 @@ impl Property for C12 {
             let u: i64 = if r.chance(2, 3) { 65536 } else { 1 };
             let exotic = r.chance(1, 12);
             let items = gen_list(&mut r, u, 60, exotic);
-            let base = u * *r.pick(&[12, 20, 25, 30, 40, 40, 50, 60, 80, 120]);
+            // measures from narrower than a single box (overfull and forced solutions) to comfortable
+            let base = u * *r.pick(&[5, 8, 12, 20, 25, 30, 40, 40, 50, 60, 80, 120]);
             let c = gen_common(&mut r, u, base);
             v.push(LCase { c, items }.encode());
         }
